@@ -27,7 +27,7 @@ ASSUMPTIONS = [
 OBLIGATIONS = {"poly:star": 20, "poly:selfintersecting": 20, "poly:lattice": 20,
                "poly:repeated-vertex": 5, "pt:inside": 500, "pt:outside-in-bbox": 300,
                "pt:outside-bbox": 100, "pt:level-with-vertex": 200, "meta": 100,
-               "cells_inside_polygon": 10}
+               "cells_inside_polygon": 10, "inside-buffer": 50}
 
 
 def P():
@@ -153,6 +153,16 @@ def run_case(ctx, case):
     ctx.check("inside.values-0-1", bool(np.all((got == 0) | (got == 1))),
               "points_inside_polygon|values", case, None)
 
+    # ---- caller-supplied answer vector (documented output): whatever it holds
+    # before the call, the answer must be the same as with a fresh vector
+    for fillv in (1, 0, 7):
+        buf = np.full(len(pts), fillv, dtype=np.int32)
+        ctx.api("points_inside_polygon(inside=)")
+        ctx.tag("inside-buffer")
+        gb = np.asarray(gu.points_inside_polygon(pts.copy(), poly.copy(), inside=buf))
+        ctx.check("inside.buffer-independent", bool(np.array_equal(gb, got)) and
+                  bool(np.array_equal(buf, got)), "points_inside_polygon|inside-buffer",
+                  case, lambda: {"prefill": fillv, "differ": int((gb != got).sum())})
     # ---- metamorphic relations on observed executions
     rng = np.random.default_rng(int(case.get("seed", 0)))
     n = len(poly)
